@@ -31,7 +31,17 @@ SetupOK ==
   /\ (Ev.regA \/ Ev.regB) => Ev.peersok                           \* each end reports the other's true address
   /\ (Ev.regA /\ Ev.regB) => Ev.trafficok                         \* traffic sealed by either link end unseals at the other
 
-TraceNext == l <= Len(Trace) /\ l' = l + 1 /\ Ev.ev = "setup" /\ SetupOK = TRUE
+(*  {"ev":"insider","challenge":"cV"|"cM","proof":"none"|"observed"|"own","mhassecret":B,"registered":B}          *)
+(*   a router M with its own valid identity and the right universe name speaks the handshake itself against a     *)
+(*   victim that has the universe secret (HandshakeInsider.tla): challenge = what M put into its request (the      *)
+(*   victim's own challenge or a fresh one), proof = what M put into its response                                  *)
+InsiderOK ==
+  /\ Ev.registered => Ev.mhassecret                                   \* AuthOnRegister
+  /\ (Ev.mhassecret /\ Ev.proof = "own") => Ev.registered              \* who knows the secret is admitted
+
+TraceNext == /\ l <= Len(Trace) /\ l' = l + 1
+             /\ \/ (Ev.ev = "setup" /\ SetupOK = TRUE)
+                \/ (Ev.ev = "insider" /\ InsiderOK = TRUE)
 
 TraceAccepted ==
   LET dd == TLCGet("stats").diameter
